@@ -99,6 +99,7 @@ def catalogue():
     C["sum_values"] = (lambda E: [E.x.sum_values(), E.x.sum_values_to(("a",)), E.x.sum_values_over(("b",))], False)
     C["cumsum"] = (lambda E: [E.x.cumsum("a"), E.y.cumsum("c")], False)
     C["shares"] = (lambda E: [E.x.get_shares_over(("a",)), E.x.get_shares_over(("a", "b"))], False)
+    C["shares_over_nothing"] = (lambda E: [E.x.get_shares_over(()), E.y.get_shares_over("")], False)
     # casts
     C["cast_to_same"] = (lambda E: [E.x.cast_to(E.ds("ab")), E.x.cast_to(E.ds("ba"))], True)
     C["cast_to_bigger"] = (lambda E: [E.x.cast_to(E.ds("cab")), E.s.cast_to(E.ds("a"))], True)
@@ -112,6 +113,7 @@ def catalogue():
     # copies and constructors
     C["copy"] = (lambda E: [E.x.copy(), E.s.copy(), E.tx.copy()], True)
     C["full_like"] = (lambda E: [FlodymArray.full_like(E.x, 1.5), FlodymArray.full_like(E.x, E.x.values[0, 0])], True)
+    C["full_like_array_fill"] = (lambda E: _full_like_array_fill(E), True)
     C["full"] = (lambda E: [FlodymArray.full(E.x.dims, 2.0), FlodymArray.full(E.ds("ab"), E.x.values[0])], False)
     C["scalar"] = (lambda E: [FlodymArray.scalar(E.x.values[0, 0]), FlodymArray.scalar(3)], False)
     C["from_dims_superset"] = (lambda E: [FlodymArray.from_dims_superset(E.full, ("a", "b")), FlodymArray.from_dims_superset(E.full), Parameter.from_dims_superset(E.x.dims, ("b",))], False)
@@ -143,6 +145,26 @@ def _read_from_view_backed(E):
     E.arrays.update(cast_result=big, transposed=tv, strided=sv, reshaped=re)
     return [big["c1"], big[{"a": "a1"}], big["c2", "b1"], tv["b1"], tv[{"a": "a2"}], tv[...], sv["c2"], sv[{"b": "b2"}], re["a1"], re[{"b": "b2"}]] \
         + list(tv.split("a").values()) + list(big.split("c").values())
+
+
+def _full_like_array_fill(E):
+    """full_like with an ndarray of the template's full shape (and of a part of it) as the fill: the fill array stays the
+    caller's own"""
+    from flodym import FlodymArray
+
+    w = E.w
+    V = E.vals["x"].copy()
+    row = E.vals["x"][0].copy()
+    r1 = FlodymArray.full_like(E.x, V)
+    r2 = FlodymArray.full_like(E.x, row)
+    w.ob("full_like:fill_array_not_adopted", r1.values is not V and not np.shares_memory(r1.values, V))
+    keep = V.copy()
+    if r1.values.size:
+        r1.values[...] = w.real("probe_into_full_like_result")
+    for idx in np.ndindex(*V.shape):
+        w.ob(f"full_like:fill_array_unchanged_by_writes_into_result{list(idx)}", w.same(V[idx], keep[idx]))
+    r1.values[...] = keep
+    return [r1, r2]
 
 
 def _to_df_sparse_with_nan(E):
